@@ -1063,6 +1063,20 @@ class Hist:
             s.emit("ref %d %d %s" % (c, kr, base), "ref ok", "exact")
             s.refs[kr] = World.find(W.root, base)
             s.do_set([], "setsub %d %d %s %s" % (c, kr, "release" if base == "linux.uts" else "uts.release", tok), "setsub", v, rel, tok, None)
+        if rng.random() < 0.4 and vc.isset:
+            # the derived value is cleared BEFORE anybody has read it (its recomputation is still pending inside the library):
+            # cleared means no value, by every way of getting, until somebody sets it or its source again
+            if rng.random() < 0.5:
+                s.do_clear("set %d linux.version_code nil" % c, "set", v, vc)
+            else:
+                kc = rng.choice([x for x in range(16) if x not in (k, k2)])
+                s.emit("ref %d %d linux.version_code" % (c, kc), "ref ok", "exact")
+                s.refs[kc] = vc
+                s.do_clear("rset %d %d nil" % (c, kc), "rset", v, vc)
+            s.kinds["derived-cleared-unread"] = s.kinds.get("derived-cleared-unread", 0) + 1
+            if rng.random() < 0.5:
+                s.emit("get %d linux.version_code" % c, "get " + s.exp_get(vc), "exact")
+                s.emit("rinfo %d" % k, "rinfo %s %d" % (vc.ty, 1 if vc.isset else 0), "exact") if way == "ref" else None
         if way == "ref":
             s.emit("rget %d %d" % (c, k), "rget " + s.exp_get(vc), "exact")
         elif way == "sub":
